@@ -159,4 +159,32 @@ theorem selectNodes_spec (g : G) (hnd : g.nodes.Nodup) (ht : TopoL g.preds g.nod
 theorem selectNodes_none (g : G) (x : Node) : x ∈ selectNodes g none none none ↔ x ∈ g.nodes := by
   simp [selectNodes, g2Of, g1Of, s1, dX, s3, induced]
 
+theorem g2Of_none (g : G) : g2Of g none none = g := by
+  have h : g.nodes.filter (fun y => s1 g none y && !dX (g1Of g none) none y) = g.nodes := by
+    apply List.filter_eq_self.mpr
+    intro a ha
+    simp [s1, dX, ha]
+  cases g with
+  | mk nodes preds =>
+    simp only [g2Of, induced] at h ⊢
+    rw [h]
+
+/-- targets only (`executor(target_nodes=T)`, `setup(target_nodes=T)`): the targets and their ancestors -/
+theorem selectNodes_targets (g : G) (hnd : g.nodes.Nodup) (ht : TopoL g.preds g.nodes) (T : List Node) (x : Node) :
+    x ∈ selectNodes g none none (some T) ↔ x ∈ g.nodes ∧ (x ∈ T ∨ ∃ t ∈ T, Reach g x t) := by
+  simp only [selectNodes, g2Of_none, List.mem_filter]
+  constructor
+  · rintro ⟨hx, h⟩
+    refine ⟨hx, ?_⟩
+    simp only [s3, Bool.or_eq_true, List.contains_eq_mem, decide_eq_true_eq, List.any_eq_true] at h
+    rcases h with h | ⟨t, htT, hxt⟩
+    · exact Or.inl h
+    · exact Or.inr ⟨t, htT, (reachB_iff hnd ht hx).1 hxt⟩
+  · rintro ⟨hx, h⟩
+    refine ⟨hx, ?_⟩
+    simp only [s3, Bool.or_eq_true, List.contains_eq_mem, decide_eq_true_eq, List.any_eq_true]
+    rcases h with h | ⟨t, htT, hxt⟩
+    · exact Or.inl h
+    · exact Or.inr ⟨t, htT, (reachB_iff hnd ht hx).2 hxt⟩
+
 end GM
